@@ -22,7 +22,7 @@ from typing import Any, ForwardRef, Optional, Tuple, Type, Union
 from uuid import UUID
 from zoneinfo import ZoneInfo
 
-from typing_extensions import TypeAlias
+from typing_extensions import LiteralString, TypeAlias
 
 from mashumaro.config import BaseConfig
 from mashumaro.core.const import PY_311_MIN
@@ -462,6 +462,8 @@ def on_special_typing_primitive(
         )
     elif is_literal(instance.type):
         return on_literal(instance, ctx)
+    elif instance.type is LiteralString:
+        return get_schema(instance.derive(type=str), ctx)
     # elif is_self(instance.type):
     #     raise NotImplementedError
     elif is_required(instance.type) or is_not_required(instance.type):
